@@ -327,6 +327,71 @@ def cycle(obj, n=1, to_file=False):
             cur = hp.load(buf)
     return cur, texts
 
+ORDER_WORKER = r"""
+import sys, io, json
+sys.path.insert(0, %(verif)r)
+from harness import bootstrap
+import numpy as np, holopy as hp
+from harness.props.c15 import equivalent, history_objects
+objs = history_objects()
+order = json.loads(sys.argv[1])
+texts = {}
+for name, o in objs.items():
+    b = io.BytesIO(); hp.save(b, o); texts[name] = b.getvalue()
+bad = []
+for name in order:
+    back = hp.load(io.BytesIO(texts[name]))
+    if not equivalent(objs[name], back):
+        bad.append(name + ": " + repr(back)[:200])
+print("RESULT " + json.dumps(bad))
+"""
+
+
+def history_objects():
+    """objects of classes related by inheritance, loaded in one interpreter in different orders"""
+    from holopy.core.prior import Gaussian as G, BoundedGaussian as BG, Uniform as U, ComplexPrior as CP
+    from holopy.scattering import Scatterers as Scs
+    from holopy.scattering.scatterer import LayeredSphere as LS
+    return {
+        "Gaussian": G(0.5, 0.2), "BoundedGaussian": BG(0.5, 0.2, 0.1, 2.0), "Uniform": U(0.25, 1.5, guess=0.75),
+        "ComplexPrior": CP(U(1.5, 1.625), 0.125),
+        "Scatterers": Scs([Sphere(n=1.5, r=0.5, center=(0, 0, 1))]), "Spheres": Spheres([Sphere(n=1.5, r=0.5, center=(0, 0, 1))], warn=False),
+        "Sphere": Sphere(n=1.5, r=0.5, center=(0, 1, 2)), "LayeredSphere": LS(n=[1.5, 1.625], t=[0.25, 0.125], center=(0, 0, 1)),
+        "MieLens": MieLens(lens_angle=0.75), "AberratedMieLens": AberratedMieLens(spherical_aberration=0.25, lens_angle=0.75),
+        "Mie": Mie(False, True), "Multisphere": Multisphere(niter=100),
+    }
+
+
+def load_orders(ctx):
+    """equivalence after load must not depend on which classes were loaded earlier in the same interpreter"""
+    import subprocess
+    import json as _json
+    verif = os.path.dirname(os.path.dirname(os.path.dirname(os.path.abspath(__file__))))
+    script = os.path.join(verif, "build", "c15_order_%d.py" % os.getpid())
+    with open(script, "w") as fh:
+        fh.write(ORDER_WORKER % dict(verif=verif))
+    names = list(history_objects())
+    orders = [names, names[::-1]] + [[str(x) for x in ctx.rng.permutation(names)] for _ in range(ctx.n(2, 8))]
+    try:
+        for order in orders:
+            ctx.tried("load-order", tuple(order))
+            r = subprocess.run(["/venv/bin/python", script, _json.dumps(order)], stdout=subprocess.PIPE, stderr=subprocess.PIPE, text=True, cwd=verif, timeout=600)
+            line = [l for l in r.stdout.splitlines() if l.startswith("RESULT ")]
+            if not line:
+                ctx.violation("C15:load-order-raises", "loading saved objects in the order %r failed: %s" % (order, (r.stderr or r.stdout).strip().splitlines()[-1:][0:1]),
+                              dict(kind="load-order", order=order, stderr=r.stderr[-600:]))
+                continue
+            bad = _json.loads(line[0][7:])
+            if bad:
+                ctx.violation("C15:load-order", "after loading %r in this order in one interpreter, not equivalent to what was saved: %s" % (order, "; ".join(bad)[:400]),
+                              dict(kind="load-order", order=order, bad=bad))
+                break
+    finally:
+        try:
+            os.remove(script)
+        except OSError:
+            pass
+
 
 def search(ctx):
     rng = ctx.rng
@@ -411,7 +476,8 @@ def search(ctx):
         except Exception as ex:
             import traceback
             ctx.violation("C15:raises:%s" % type(ex).__name__, "save/load raised %r" % (ex,), dict(kind="raises", tb=traceback.format_exc()[-800:]))
-    ctx.sample(dict(kind="search", oracles=["equivalence after 1-3 cycles (file and stream)", "identical re-saved text", "library equality for list/scalar args",
+    load_orders(ctx)
+    ctx.sample(dict(kind="search", oracles=["equivalence after 1-3 cycles (file and stream)", "load orders across related classes in fresh interpreters", "identical re-saved text", "library equality for list/scalar args",
                                             "models: names, ties, maps", "probes of recorded findings"]))
 
 
